@@ -112,9 +112,42 @@ func byS(s string) error {
 		return errors.New("HE[" + s + "]")
 	}
 	if strings.HasPrefix(s, "panic") {
-		panic("HP[" + s + "]")
+		panic(panicVal("HP[" + s + "]"))
 	}
 	return nil
+}
+
+// The panic-value alphabet. What a handler passes to panic() is any Go value: a string,
+// an error, a value of a defined string / struct / pointer type (error codes, fmt.Stringer
+// ...). All of the values below print as the same text with %v, so the model's rule
+// (a panic is an error reply of class EPanic carrying the handler's token) does not
+// depend on which one is used; the kind is a function of the text alone, so that a
+// replayed input panics with the same kind of value.
+type pStr string
+type pStruct struct{ tok string }
+type pPtr struct{ tok string }
+type pCode int
+
+func (v pStruct) String() string { return v.tok }
+func (v *pPtr) String() string   { return v.tok }
+func (c pCode) String() string   { return fmt.Sprintf("HP[n%d]", int(c)) }
+
+func panicVal(text string) interface{} {
+	k := 0
+	for i := 0; i < len(text); i++ {
+		k += int(text[i])
+	}
+	switch k % 5 {
+	case 0:
+		return text
+	case 1:
+		return errors.New(text)
+	case 2:
+		return pStr(text)
+	case 3:
+		return pStruct{text}
+	}
+	return &pPtr{text}
 }
 
 func strict(tag int, m *MsgA) (*Reply, error) {
@@ -164,7 +197,7 @@ func getI(m *GetI) (*Reply, error) {
 		return nil, errors.New("HE[n13]")
 	}
 	if m.N == 666 {
-		panic("HP[n666]")
+		panic(pCode(m.N))
 	}
 	return &Reply{T: 13, I: int64(m.N)}, nil
 }
@@ -174,7 +207,7 @@ func getD(m *GetD) (*Reply, error) {
 		return nil, errors.New("HE[" + h + "]")
 	}
 	if strings.HasPrefix(h, "ee") {
-		panic("HP[" + h + "]")
+		panic(panicVal("HP[" + h + "]"))
 	}
 	return &Reply{T: 14, I: int64(len(h)), D: m.X}, nil
 }
